@@ -7,13 +7,15 @@ SPEC = {
                           "chunks_join", "chunks_shape", "bytes_encoding", "encode_single_item",
                           "pdata_roundtrip", "pdata_roundtrip_exact", "decoder_refines_tree",
                           "pdata_roundtrip_bytes", "pdata_roundtrip_bytes_exact", "bytes_any_chunking",
-                          "decoded_in_quantifier", "decoded_cmp_total", "decode_reencode_stable"],
+                          "decoded_in_quantifier", "decoded_cmp_total", "decode_reencode_stable",
+                          "decoder_is_parse_then_tree", "decode_eq_decodeBytes", "decoded_span_is_one_item"],
     "streams": [{"name": "pdata", "quick": 1500, "thorough": 60000}],
     "rule": "a case = three related PlutusData values (depth 0..4, width 0..3; tags 121..127, 1280..1400, 102 with any_constructor; "
             "Int / BigUInt / BigNInt incl. leading zeros, -0 and magnitudes around 2^64; byte strings of 0,1,2,31,32,63..66,127..129,192,193 "
             "and random 0..260 bytes): all 9 ordered comparisons, encode+decode of each, decode of an alternative valid encoding of each "
-            "(non-minimal heads, arbitrary chunking), one malformed/truncated input, every 4th case a tag-102 input with an unchecked inner "
-            "array head (0,1,2,3,23 elements, wide heads, indefinite, trailing junk, nested in array/map); plus max(4, cases/50) cases with constructor tags "
+            "(non-minimal heads, arbitrary chunking), one malformed/truncated input, every 4th case a tag-102 input with every kind of inner "
+            "array head (0,1,2,3,23 elements, wide heads, indefinite with/without its break after two items, trailing junk, nested in "
+            "array/map; only a definite 2-array or a closed indefinite one decodes); plus max(4, cases/50) cases with constructor tags "
             "outside the quantifier (0,2,3,5,101,103,120,128,1279,1401,2^64-1, 102 without any_constructor) where only impl-vs-model "
             "agreement (incl. the panic outcome) is compared; distinct = sha1 of op text; non-trivial = the case "
             "contains a comparison that is `eq` between textually different values AND a strict (`lt`/`gt`) comparison",
@@ -23,9 +25,9 @@ SPEC = {
                      "encoded bytes, decoded value compared on every op)",
                      "Model/PlutusDataDec.lean transcribes the Decode impls of PlutusData / BigInt / Constr / BoundedBytes / MaybeIndefArray / "
                      "KeyValuePairs together with the minicbor 0.26.5 Decoder primitives they call (datatype incl. its peek, tag, probe, int, "
-                     "u64, bytes, bytes_iter, array, map, array_iter_with, map_iter_with) at byte level, leniencies included (tag 102: any "
-                     "array head, break not consumed); it is the decoder the stream compares with the Rust on values, alternative valid "
-                     "encodings, malformed/truncated input and tag-102 leniency inputs; minicbor's error classes are collapsed to `err`"],
+                     "u64, bytes, bytes_iter, array, map, array_iter_with, map_iter_with) at byte level (tag 102: definite 2-array or indefinite "
+                     "array closed after two items, length checked after both were decoded); it is the decoder the stream compares with the Rust on values, alternative valid "
+                     "encodings, malformed/truncated input and odd tag-102 inputs; minicbor's error classes are collapsed to `err`"],
     "assumptions": ["values satisfy wfTag (every Constr tag in 121..127, 1280..1400, or 102 with any_constructor present); elsewhere "
                     "Constr::constr_index panics and cmp/== is undefined (proved: cmp_panics_on_invalid_tag, "
                     "cmp_panics_on_missing_any_constructor; DESIGN §6 #7, outside the property's quantifier)"],
